@@ -25,7 +25,9 @@ THEOREMS = ["C08_mean_obliquity_polynomial", "C08_mean_obliquity_vs_IAU", "C08_t
             "C08_apparent_longitude_coarse_closed_form",
             "C08_moon_node_closed_form", "C08_moon_node_constants", "C08_node_agreement",
             "C08_true_obliquity_structure", "C08_sun_errors_propagate", "C08_equinox_frame_refuted",
-            "C08_node_nutation_constants"]
+            "C08_node_nutation_constants",
+            "C08_nutation_longitude_structure", "C08_nutation_obliquity_structure", "C08_nutation_remainders",
+            "C08_nutation_longitude_main_term", "C08_nutation_obliquity_main_term"]
 PROOF_TIMEOUT = {"quick": 2200, "thorough": 3000}
 EXHAUSTIVE = False
 MANIFEST = {
@@ -53,8 +55,8 @@ CLAUSES = {
     "B1950 rectangular coordinates have norm r": "refuted: known finding norm-b1950 - closed form (pins the code) of the generated body (y uses the already rotated x, z the rotated x and y) and ~ C08_b1950_norm_full proved with the witness lon = 90, lat = 0, r = 1 (norm off by > 1e-7); implementation witness Sun.rectangular_coordinates_b1950(Epoch(2089055.144)): norm 1.00744, r = 1.01526",
     "J2000/B1950/arbitrary equinox positions = of-date position carried by the library's precession, 2 arcsec / 1e-5 AU, 1000-3000": "UNPROVED as a clause (searched); refuted on the implementation under known findings frame-j2000, frame-earth-j2000 (VSOP87_L_J2000 frequency typo 12556.15 for 12566.15, up to 144 arcsec), frame-b1950 (variable overwrite, up to 6925 arcsec), frame-equinox (T = epoch-equinox instead of 0, up to 234 arcsec); the same clause holds to 0.8 arcsec for the defect-free recomputation from the library's tables (searched). In Coq only: closed forms (pin the code) of the three generated functions (C08_rectangular_j2000/b1950/equinox_closed_form; C08_equinox_angles is a constant read-out), and two refutations on those closed forms: ~ C08_b1950_norm_full, and ~ C08_equinox_frame_full = the generated equinox rotation is NOT within 2 arcsec of the rotation Meeus prescribes (T = 0) at epoch 1000 / equinox 2300 (C08_equinox_T_refuted is the weaker polynomial-identity form). The J2000 table typo has no Coq statement",
     "mean obliquity within 3 arcsec of the IAU cubic for |T| <= 20": "property clause proved [ideal, for an Epoch argument]: the generated function is the explicit Laskar polynomial and interval bounds it against the independent IAU cubic",
-    "nutation in longitude within 3.5 arcsec of -17.20 sin(Omega), Omega = Moon.longitude_mean_ascending_node": "UNPROVED (searched): worst 2.43 arcsec over -2000..4000. Proved pieces: Moon.longitude_mean_ascending_node = pos360(red360(node polynomial)) is a closed form (pins the code); C08_node_agreement is [spec]: the Moon side is bridged by that closed form, the nutation-side polynomial (node_nutation) is a transcription of Coordinates.py:398 NOT tied to f_nutation_longitude by a proof in this property's files yet (it is the term polyO of the structure theorem being added in C08_nut_main.v)",
-    "nutation in obliquity within 1.5 arcsec of 9.20 cos(Omega)": "UNPROVED (searched): worst 0.83 arcsec over -2000..4000",
+    "nutation in longitude within 3.5 arcsec of -17.20 sin(Omega), Omega = Moon.longitude_mean_ascending_node": "property clause proved [ideal, Epoch argument, |T| <= 20 centuries]: C08_nutation_longitude_main_term - the generated double loop is an instance of the generic loop theorem (C08_nut_loop.nut_fix_spec, induction, any table length; unification with the generated text), so nutation_longitude = Angle(0,0, sum_i (a_i + b_i T) sin(sum_j n_ij F_j(T))/1e4) on the extracted tables (C08_nutation_longitude_structure); the rows after the first are bounded by their amplitudes read from the table: 2.25 arcsec (C08_nutation_remainders); the code's node polynomial is C08_node.node_nutation (reflexivity) and within 0.0024 deg of the Moon module's (C08_node_agreement, < 0.001 arcsec on the main term). Binary64 rounding: searched (worst 2.43 arcsec over -2000..4000)",
+    "nutation in obliquity within 1.5 arcsec of 9.20 cos(Omega)": "property clause proved [ideal, Epoch argument, |T| <= 20 centuries]: C08_nutation_obliquity_main_term, same construction with the cosine table (49 rows; remainder 0.89 arcsec from the extracted amplitudes). Binary64 rounding: searched (worst 0.83 arcsec over -2000..4000)",
     "true obliquity = mean obliquity + nutation in obliquity": "property clause proved [ideal, Epoch argument, |T| <= 20]: C08_true_obliquity_structure is unconditional (true_obliquity = Angle.__add__(mean obliquity, whatever nutation_obliquity returns), errors propagate); C08_true_obliquity_is_sum is the corollary for callee results of Angle shape",
     "coarse solar formulas within 0.02 degree of VSOP87 in 1800-2200": "UNPROVED (searched): worst 0.0095 degree; global numeric statement about a 1000-term series. In Coq only closed forms (pin the code): true_longitude_coarse for |t| <= 10 centuries, apparent_longitude_coarse with its callee abstracted; C08_coarse_constants is a constant read-out; apparent_rightascension_declination_coarse has no theorem",
     "date arguments in every accepted form": "UNPROVED (searched): all theorems are for an Epoch argument; the other forms go through Epoch.check_input_date (C02); every documented form of a calendar day gives the same Angle (searched)",
@@ -64,7 +66,8 @@ CLAUSES = {
 
 def proof_files(tier):
     return ["C08_base.v", "C08_obliquity.v", "C08_sun.v", "C08_j2000.v", "C08_angle2.v", "C08_frames.v",
-            "C08_equinox.v", "C08_coarse.v", "C08_node.v", "C08.v"]
+            "C08_equinox.v", "C08_coarse.v", "C08_node.v",
+            "C08_nut_angle.v", "C08_nut_loop.v", "C08_nut_main.v", "C08_nut_bound.v", "C08.v"]
 
 
 # ----------------------------------------------------------------------------------------------
